@@ -392,6 +392,10 @@ theorem uniq_rOp {s s' : St} {op : Op} (hu : Uniq s) (h : step s (.rOp op) = som
     cases op with
     | seek off => simp only at h; cases h; exact hq
     | read want => simp only at h; cases h; exact uniq_advance _ _ hq
+    | readAt off want =>
+      simp only at h; cases h
+      apply uniq_advance
+      exact hq
     | prefetch fs cap =>
       simp only at h
       split at h
@@ -588,7 +592,7 @@ theorem step_uniq {s s' : St} {a : Act} (hl : Live s) (hu : Uniq s) (h : step s 
   | rOp op => exact uniq_rOp hu h
   | rStep => exact uniq_rStep hl hu h
 
-theorem init_uniq (file : Bytes) (maxReq : Nat) : Uniq (init file maxReq) := by
+theorem init_uniq (file : Bytes) (maxReq : Nat) (bufsize : Nat := 0) : Uniq (init file maxReq bufsize) := by
   unfold Uniq init
   refine ⟨?_, ?_, ?_, ?_, ?_, ?_⟩ <;> simp [cnt, dCnt, dispNum, heldNum]
 
